@@ -112,10 +112,11 @@ pub fn big(args: &[String], out: &mut Out) {
     for _ in 0..count {
         ns.push(65 + r.next_u64() % (maxn - 64));
     }
+    // every level of the pending-subtree stack is reached at a power of two: the counts around 2^16, 2^17 and 2^20 are always tried
+    let always: [u64; 7] = [65535, 65536, 65537, 131071, 131072, 131073, (1 << 20) + 1];
+    ns.retain(|n| *n <= maxn);
+    ns.extend(always);
     for n in ns {
-        if n > maxn {
-            continue;
-        }
         let leaves = rand_leaves(&mut r, n as usize);
         let want = def_root(&leaves);
         check_one(out, n as usize, want, &leaves, json!({"n": n, "seed": seed, "mode": "big"}), false);
